@@ -137,4 +137,26 @@ def run (types : List SigType) (ops : List Op) : Option (List Nat × List (List 
   | some s => if s.needNewMax then none else
     some (s.ttRev.reverse, s.changesRev.toList.map (fun l => canon l.reverse))
 
+
+/-! ### running the faithful store model on the same operation language -/
+
+/-- one operation on one encoder (`split` is handled by the caller: it starts a new encoder) -/
+def stepOp (c : Codec) (e : Enc) : Op → Option Enc
+  | .time t => some (timeChange c e t)
+  | .vcd id v r => vcdChange e id v r
+  | .raw id st v => rawChange e id v st
+  | .real id le => realChange e id le
+  | .split => none
+
+def runOps (c : Codec) (e : Enc) : List Op → Option Enc
+  | [] => some e
+  | op :: rest => match stepOp c e op with
+    | none => none
+    | some e' => runOps c e' rest
+
+def timesOf : List Op → List Nat
+  | [] => []
+  | .time t :: rest => t :: timesOf rest
+  | _ :: rest => timesOf rest
+
 end Wellen.Spec
